@@ -24,7 +24,7 @@ def gen_module(m):
         tr = Tracer()
         stub, loc, ret = tr.run(m['mod'], m['fname'], cfg, m['args'], m['kwargs'])
         items = emit.collect_items(m, stub, loc, ret)
-        vd[tag] = emit.print_items(items)
+        vd[tag] = emit.print_items(items, m['name'])
     return emit.lean_module(m, vd)
 
 def main():
